@@ -78,3 +78,6 @@ package ports
 
 //@ interface Filter.Apply
 //@   ensures res1 == nil ==> res0 != nil
+
+//@ interface MetricsExtractor.ExtractFromChunk
+//@   ensures res == nil || finiteMetrics(res)
